@@ -91,8 +91,12 @@ def name_axioms_for(term):
 
 
 def part_const(s):
-    """The Part that denotes the concrete dot-free string s (distinct strings -> distinct parts)."""
-    return z3.Const(f"part:{s}", PartS)
+    """The Part that denotes the concrete dot-free string s (distinct strings -> distinct parts: registered with
+    the engine, which asserts pairwise distinctness)."""
+    from .core import register_distinct
+    c = z3.Const(f"part:{s}", PartS)
+    register_distinct("Part", s, c)
+    return c
 
 
 class DName:
